@@ -365,7 +365,7 @@ def main():
             attrs = set(args.attribute)
             if ':all' in attrs:
                 attrs.remove(':all')
-                attrs.update(field.name for field in api.route_schema.fields)
+                attrs.update(field.name for field in api.route_schema.all_fields)
         else:
             attrs = set()
 
@@ -384,6 +384,8 @@ def main():
                 attrs.remove(field.name)
 
         # Error if specified attr isn't even a field in the route schema
+        # (the fields that Route inherits are attributes of every route, too)
+        attrs.difference_update(field.name for field in api.route_schema.all_fields)
         if attrs:
             attr = attrs.pop()
             print('error: Attribute not defined in stone_cfg.Route: %s' %
